@@ -43,6 +43,25 @@ def build_impl(r, q):
     except Exception as e: return "exc:" + world.exc_name(e)
 
 
+_REMOTES = {}; _LOCK = __import__("threading").Lock()
+def thread_call(irset_json, q):
+    with _LOCK:          # the harness's own table of remotes (one object per set, shared by the threads) is built under a lock; the library's calls are not
+        if irset_json not in _REMOTES: _REMOTES[irset_json] = SwitcherBreezeRemote(json.loads(irset_json))
+        r = _REMOTES[irset_json]
+    return build_impl(r, q)
+
+
+def run_threads(tier, out, rnd):
+    """several threads ask ONE remote object per set for commands, from the first request of a fresh interpreter on"""
+    sets = [world.gen_irset(rnd) for _ in range(3)]
+    cs = [{"irset": s_, "q": rand_request(rnd, s_)} for s_ in sets for _ in range(12)]
+    sa = lambda c: [c["irset"]["IRSetID"], c["irset"]["OnOffType"], world.waves_arg(c["irset"])]
+    ex = lib.run_model([lib.req("build_spec", *sa(c), q_args(c["q"])) for c in cs])
+    keep = [k for k, e in enumerate(ex) if e != "-"]
+    world.run_threads(out, "several-threads-on-one-remote-from-the-first-request-on", "props.c15", "thread_call", [[json.dumps(cs[k]["irset"], sort_keys=True), cs[k]["q"]] for k in keep],
+                      [ex[k] for k in keep], lambda c: "build_command%s on a remote shared by the threads" % (tuple(c[1]),) if c else "?", startups=32 if tier == "quick" else 500, threads=6, rounds=4, spread=False)
+
+
 def q_args(q):
     on, mode, target, fan, swing, cur = q
     return [1 if on else 0, mode, target, fan, 1 if swing else 0, 0 if cur is None else (2 if cur else 1)]
@@ -132,6 +151,7 @@ def shaped_sets(rnd):
 
 
 def run(tier, rnd, out):
+    run_threads(tier, out, rnd)
     corpus = lib.load_corpus("C15")
     if corpus: run_stream(out, "corpus", corpus)
     cs = []
@@ -165,5 +185,8 @@ def run(tier, rnd, out):
 
 
 def replay(rp, out):
+    if "threads" in rp.get("stream", ""):
+        import random
+        return run_threads("thorough", out, random.Random(int(rp.get("seed", 1))))
     c = rp["input"]
     if c.get("q") is not None: run_stream(out, rp.get("stream", "replay").replace("-capabilities", ""), [c])
